@@ -113,6 +113,10 @@ def features():
         {'name': 'Pair', 'body': [F('a', 'char'), F('b', 'short')]},
         {'name': 'Named', 'body': [L('n_len', 'char', offset='2'), F('n', 'string', length='n_len'), F('k', 'Kind')]},
         {'name': 'OptTail', 'body': [F('id', 'short'), F('a', 'char', optional='true'), F('s', 'string', optional='true')]},
+        {'name': 'OptArr', 'body': [F('id', 'char'), A('xs', 'short', optional='true')]},
+        {'name': 'OptArrLen', 'body': [F('id', 'char'), F('q', 'char', optional='true'), A('ps', 'Pair', length='2', optional='true')]},
+        {'name': 'OptDummy', 'body': [F('o', 'char', optional='true'), D('short', '5')]},
+        {'name': 'ChunkedText', 'body': [F('id', 'char'), CH(F('name', 'string'), BR, F('note', 'string'))]},
         {'name': 'OptChunked', 'body': [CH(F('name', 'string'), BR, F('x', 'char', optional='true'), F('y', 'char', optional='true'), BR, F('z', 'short', optional='true'))]},
         {'name': 'Hard', 'body': [F('magic', 'string', 'EO', length='2'), F('ver', 'char', '3'), F(None, 'short', '1000'), F(None, 'bool', 'true'), F('flag', 'bool:short')]},
         {'name': 'Overrides', 'body': [F('k1', 'Kind:short'), F('k2', 'Kind'), F('w', 'Wide'), F('w2', 'Wide:int'), A('ks', 'Kind:byte', length='2')]},
